@@ -931,6 +931,11 @@ func rootAllocRec(v ssa.Value, seen map[ssa.Value]bool) ssa.Value {
 			}
 			return nil
 		case *ssa.Call:
+			if b, ok := x.Call.Value.(*ssa.Builtin); ok && b.Name() == "append" {
+				// the result is the first argument's array, or a new one
+				v = x.Call.Args[0]
+				continue
+			}
 			if freshCalls[x] != nil && freshCalls[x][0] {
 				return x
 			}
